@@ -63,7 +63,8 @@ pub fn run_errslots(words: &[&str]) -> String {
     for _ in 0..n {
         let (ctx, crx) = channel::<Cmd>();
         let (rtx, rrx) = channel::<String>();
-        handles.push(std::thread::spawn(move || worker(crx, rtx)));
+        // small stacks: schedules with a few hundred threads must fit the address-space cap the checks run under
+        handles.push(std::thread::Builder::new().stack_size(256 * 1024).spawn(move || worker(crx, rtx)).expect("spawn"));
         txs.push(ctx);
         rxs.push(rrx);
     }
